@@ -37,7 +37,12 @@ class Adapter(EnvAdapter):
         return self._base_configs(tier) + [
             dict(id=f"n10a2k2_t{t}_sweep", ctor=dict(num_nodes=10, num_edges=15, max_degree=4, num_agents=2, num_nodes_per_agent=2,
                                                     time_limit=t, default=False), episodes=1, max_steps=t + 2,
-                 policies=["stall"], probe_every=0, props=["C03", "C11"]) for t in ts]
+                 policies=["stall"], probe_every=0, props=["C03", "C11"]) for t in ts] + [
+            # DenseRewardFn with non-default reward values: only the groups that do not depend on the reward accounting
+            dict(id="n10a2k2_t7_rw", ctor=dict(num_nodes=10, num_edges=15, max_degree=4, num_agents=2, num_nodes_per_agent=2,
+                                               time_limit=7, default=False, reward_values=(5.0, -2.0, -3.5)),
+                 episodes=4 if tier == "quick" else 16, max_steps=11, probe_cap=40, probe_every=2,
+                 policies=["solve", "crowd", "random", "masked"], props=["C01", "C03", "C04", "C06", "C11", "C12"])]
 
     def _base_configs(self, tier):
         pols = ["solve", "crowd", "masked", "collide", "random", "mostly_masked"]
@@ -94,6 +99,13 @@ class Adapter(EnvAdapter):
         gen = SplitRandomGenerator(num_nodes=k["num_nodes"], num_edges=k["num_edges"], max_degree=k["max_degree"],
                                    num_agents=k["num_agents"], num_nodes_per_agent=k["num_nodes_per_agent"],
                                    max_step=k.get("max_step", k["time_limit"]))
+        if k.get("reward_values"):      # DenseRewardFn with non-default reward values
+            import jax.numpy as jnp
+
+            from jumanji.environments.routing.mmst.reward import DenseRewardFn
+
+            return MMST(generator=gen, time_limit=k["time_limit"],
+                        reward_fn=DenseRewardFn(reward_values=jnp.asarray(k["reward_values"], jnp.float32)))
         return MMST(generator=gen, time_limit=k["time_limit"])
 
     def cfg_record(self, cfg, env):
